@@ -1186,6 +1186,8 @@ class VerilogCase(ast.AST):
         self._fields = tuple(['var', 'cases', 'default'])
         
     def toVerilog(self):
+        # an item without exactly one statement needs a begin/end block,
+        # 'default:endcase' is not legal Verilog
         str = 'case ({})\n'.format(Python2VerilogTranspiler.toVerilog(self.var))
         for item in self.cases:
             case = Python2VerilogTranspiler.toVerilog(item.value)
@@ -1193,24 +1195,24 @@ class VerilogCase(ast.AST):
             
             str += f'{case}: '
             
-            if len(sts) > 1:
+            if len(sts) != 1:
                 str += 'begin\n'
 
             for st in sts:
                 str += '{}\n'.format(Python2VerilogTranspiler.toVerilog(st))
 
-            if len(sts) > 1:
+            if len(sts) != 1:
                 str += 'end\n'
                 
         str += 'default:'
         sts = self.default
-        if len(sts) > 1:
+        if len(sts) != 1:
             str += 'begin\n'
 
         for st in sts:
             str += '{}\n'.format(Python2VerilogTranspiler.toVerilog(st))
 
-        if len(sts) > 1:
+        if len(sts) != 1:
             str += 'end\n'
 
         str += 'endcase\n'            
